@@ -119,6 +119,12 @@ func runC17(c *Ctx) {
 	checkCleanupAgreesWithSafe(c)
 	c.Doc("R11.2", "every exported method of the cache entities that stages or commits operations calls notifyUpdated before it succeeds (what later queries list and sort is the excerpt)")
 	checkMutatorsNotify(c, "R11.2")
+	// two accepted mutations of one bug are both recorded: one live instance per entity (shared with C18)
+	checkSingleInstance(c, newLockWorld(w))
+	// "invalid arguments are refused": the content checks of each operation (shared with C04)
+	checkOpFieldValidation(c)
+	// the files attached to the recorded operation stay reachable from the commit (shared with C04)
+	checkFilesTravel(c)
 
 	rms := w.resolverMethods()
 	if len(rms) == 0 {
